@@ -229,7 +229,25 @@ def wellformed_path(tree, toks):
     return [n["name"] for n in path]
 
 
+class CommandMissing(Exception):
+    pass
+
+
 def judge_line(sh, env, app, log, tree, toks, rec):
+    try:
+        return _judge_line(sh, env, app, log, tree, toks, rec)
+    except CommandMissing as e:
+        sh.violate("command-missing", rec, "the application does not know the configured (enabled) command %s" % (e,))
+
+
+def find_cmd(app, path):
+    try:
+        return T.find_command(app, path)
+    except Exception as e:
+        raise CommandMissing("%r: %r" % (path, e))
+
+
+def _judge_line(sh, env, app, log, tree, toks, rec):
     argv = ["prog"] + list(toks)
     raw = env.ArgvArgs(argv)
     if argv != ["prog"] + list(toks):
@@ -238,7 +256,7 @@ def judge_line(sh, env, app, log, tree, toks, rec):
 
     def parsable(path):
         try:
-            T.find_command(app, path).parse(raw)
+            find_cmd(app, path).parse(raw)
             return True
         except env.CPA:
             return False
@@ -274,7 +292,7 @@ def judge_line(sh, env, app, log, tree, toks, rec):
         return
     sh.count("second_wraps")
     if want[0] == "cmd":
-        po = outcome_of_parse(env, T.find_command(app, want[1]), raw)
+        po = outcome_of_parse(env, find_cmd(app, want[1]), raw)
         if po[0] == "exc" and wellformed_path(tree, toks) == want[1]:
             sh.violate("wellformed-line-rejected", rec, "the line is the path %r plus one value per required argument, its command rejects it: %r (resolution: %r)" % (want[1], po, got))
             return
